@@ -850,7 +850,7 @@ func runC17(c *RuleCtx) {
 			g := p.Graph(lit)
 			ok, _ := g.MustPass(g.Entry(), PassOpts{}, p.callPred(lit, "(*MessageCache).Put"))
 			c.Check(ok, "SCHED", f.Name, "message cached before recipients are chosen", lit.Lit, "mcache.Put on every path", "a forwarded message may not be cached (not retrievable through IWANT)")
-			for _, cs := range p.Sites(lit, false, "var:yield") {
+			for _, cs := range p.YieldSites(lit) {
 				c.Check(p.DomCall(lit, cs.Call, "(*MessageCache).Put"), "SCHED", f.Name, "cached before sending", cs.Call, "Put dominates yield", "a copy can be sent before the message is cached")
 			}
 		}
